@@ -172,6 +172,64 @@ def visitor_completeness(F, res, fn_name, adt_short):
     res.floor("%s variants with children" % adt_short, nchild, 10 if adt_short == "Expr" else 5)
 
 
+_WRAP = {}
+
+
+def _direct_alloc_parent(f, d, t):
+    """operand that becomes the parent of the scope allocated by the call t = Arena::alloc(ScopeData { parent: Some(x), .. })"""
+    if not (callee(t) or "").endswith("Arena::<T>::alloc"):
+        return None
+    sd = d.origin_op(t["args"][1])
+    if sd.get("k") == "agg" and sd["rv"]["adt"].endswith("ScopeData"):
+        par = d.origin_op(sd["rv"]["ops"][sd["rv"]["fields"].index("parent")])
+        if par.get("k") == "agg" and par["rv"]["variant"] == "Some":
+            return par["rv"]["ops"][0]
+    return None
+
+
+def _wrapper_param(F, name):
+    """if `name` is a helper of ExprScopes that does nothing but allocate a scope whose parent is its n-th parameter and
+    return it, that n (MIR local index); else None"""
+    if name in _WRAP:
+        return _WRAP[name]
+    _WRAP[name] = None
+    g = F.fns.get(name)
+    if g is None or not g.blocks or not name.startswith(SC):
+        return None
+    dg = FL.Defs(g)
+    allocs = [(b, t) for b, t in g.calls() if (callee(t) or "").endswith("Arena::<T>::alloc")]
+    others = [(b, t) for b, t in g.calls() if not (callee(t) or "").endswith("Arena::<T>::alloc")
+              and (callee(t) or "").startswith("ide::")]
+    if len(allocs) != 1 or others:
+        return None
+    ret = dg.origin(0)
+    if not (ret.get("k") == "call" and ret["bb"] == allocs[0][0]):
+        return None
+    par = _direct_alloc_parent(g, dg, allocs[0][1])
+    if par is None:
+        return None
+    po = dg.origin_op(par)
+    if po.get("k") == "arg":
+        _WRAP[name] = po["n"]
+    return _WRAP[name]
+
+
+def is_scope_alloc(F, t):
+    c = callee(t) or ""
+    return c.endswith("Arena::<T>::alloc") or _wrapper_param(F, c) is not None
+
+
+def alloc_parent(F, f, d, t):
+    """the operand that becomes the parent of the scope this call allocates (directly or through a helper), or None"""
+    c = callee(t) or ""
+    if c.endswith("Arena::<T>::alloc"):
+        return _direct_alloc_parent(f, d, t)
+    n = _wrapper_param(F, c)
+    if n is not None:
+        return t["args"][n - 1]
+    return None
+
+
 def scope_arg_class(F, f, d, op):
     """'param' if the operand is (a copy of) the function's / closure's own scope, 'fresh(parent=param)' if it was
     allocated here with parent Some(own scope), else a description"""
@@ -190,19 +248,16 @@ def scope_arg_class(F, f, d, op):
         for dd in o["defs"]:
             if dd[2] == "assign" and dd[3]["rv"]["k"] == "use":
                 oo = d.origin_op(dd[3]["rv"]["op"])
-                kinds.add("param" if oo.get("k") == "arg" else ("alloc" if oo.get("k") == "call" and (callee(oo["t"]) or "").endswith("Arena::<T>::alloc") else "?"))
-            elif dd[2] == "call" and (callee(dd[3]) or "").endswith("Arena::<T>::alloc"):
+                kinds.add("param" if oo.get("k") == "arg" else ("alloc" if oo.get("k") == "call" and is_scope_alloc(F, oo["t"]) else "?"))
+            elif dd[2] == "call" and is_scope_alloc(F, dd[3]):
                 kinds.add("alloc")
             else:
                 kinds.add("?")
         return "running(%s)" % ",".join(sorted(kinds))
-    if o.get("k") == "call" and (callee(o["t"]) or "").endswith("Arena::<T>::alloc"):
-        sd = d.origin_op(o["t"]["args"][1])
-        if sd.get("k") == "agg" and sd["rv"]["adt"].endswith("ScopeData"):
-            par = d.origin_op(sd["rv"]["ops"][sd["rv"]["fields"].index("parent")])
-            if par.get("k") == "agg" and par["rv"]["variant"] == "Some":
-                pp = scope_arg_class(F, f, d, par["rv"]["ops"][0])
-                return "fresh(parent=%s)" % pp
+    if o.get("k") == "call" and is_scope_alloc(F, o["t"]):
+        par = alloc_parent(F, f, d, o["t"])
+        if par is not None:
+            return "fresh(parent=%s)" % scope_arg_class(F, f, d, par)
         return "fresh(?)"
     return o.get("k")
 
@@ -238,10 +293,10 @@ def run(F, res, tier):
                    "this visit runs in the current scope, or in a fresh scope nested directly in it", ok, where=where, how=why)
     res.floor("recursive visits in traverse_expr", n, 17)
     # clause scope allocated inside the per-clause closure (one scope per clause), lambda scope in the Lambda arm
-    clause_clos = [f for f in fs if f.kind == "Closure" and any((callee(t) or "").endswith("Arena::<T>::alloc") for b, t in f.calls())]
+    clause_clos = [f for f in fs if f.kind == "Closure" and any(is_scope_alloc(F, t) for b, t in f.calls())]
     res.ob("S2", "one-scope-per-clause", "the scope of a case clause is allocated inside the per-clause closure (each clause gets its own scope)",
            len(clause_clos) >= 1, where=te.loc(), how="closures of traverse_expr that allocate a scope: %d" % len(clause_clos))
-    allocs_in_fn = [b for b, t in te.calls() if (callee(t) or "").endswith("Arena::<T>::alloc")]
+    allocs_in_fn = [b for b, t in te.calls() if is_scope_alloc(F, t)]
     res.ob("S2", "lambda-scope", "a lambda body gets a scope of its own, allocated in traverse_expr's Lambda arm", len(allocs_in_fn) == 1, where=te.loc(),
            how="scope allocations directly in traverse_expr: %d" % len(allocs_in_fn))
     # ---- S3
@@ -258,7 +313,7 @@ def run(F, res, tier):
             target = tg.get(sdm[st])
             region = (reach[target] - common) if target is not None else set()
             trav = [b for b, tt in ts.calls() if b in region and callee(tt) == SC + "traverse_expr"]
-            alloc = [b for b, tt in ts.calls() if b in region and (callee(tt) or "").endswith("Arena::<T>::alloc")]
+            alloc = [b for b, tt in ts.calls() if b in region and is_scope_alloc(F, tt)]
             bind = [(b, tt) for b, tt in ts.calls() if b in region and callee(tt) == SC + "add_bindings"]
             ok_order = len(trav) == 1 and len(alloc) == 1 and ts.dominates(trav[0], alloc[0])
             res.ob("S3", "%s/initialiser-before-new-scope" % st, "in a %s statement the initialiser is visited (in the old scope) before the binder's scope is allocated" % st.lower(),
@@ -275,13 +330,13 @@ def run(F, res, tier):
         for l, defs in d.defs.items():
             ks = set()
             for dd in defs:
-                if dd[2] == "call" and (callee(dd[3]) or "").endswith("Arena::<T>::alloc"):
+                if dd[2] == "call" and is_scope_alloc(F, dd[3]):
                     ks.add("alloc")
                 if dd[2] == "assign" and dd[3]["rv"]["k"] == "use":
                     oo = d.origin_op(dd[3]["rv"]["op"])
                     if oo.get("k") == "arg":
                         ks.add("param")
-                    if oo.get("k") == "call" and (callee(oo["t"]) or "").endswith("Arena::<T>::alloc"):
+                    if oo.get("k") == "call" and is_scope_alloc(F, oo["t"]):
                         ks.add("alloc")
             if ks == {"alloc", "param"}:
                 running = True
